@@ -84,6 +84,12 @@ class Sccp:
             if b.is_arg(p['l']) and not b.whole_defs(p['l']):
                 return TOP
             return self.vals.get((b.key, p['l']), set())
+        # projection of a tuple literal held in a single-def local:  _t = (a, b);  switch _t.1
+        if len(p['pr']) == 1 and isinstance(p['pr'][0], dict) and 'f' in p['pr'][0] and not p['pr'][0].get('upvar'):
+            ds = b.whole_defs(p['l'])
+            if len(ds) == 1 and ds[0][1] == 'assign' and ds[0][2]['r']['k'] == 'agg' and ds[0][2]['r'].get('ak') == 'tuple' \
+                    and self.reachable(b, ds[0][0][0]) and p['pr'][0]['f'] < len(ds[0][2]['r']['ops']):
+                return self.eval_operand(b, ds[0][2]['r']['ops'][p['pr'][0]['f']])
         # options.final_source
         last = p['pr'][-1]
         if isinstance(last, dict) and last.get('o') == self.opt_adt and last.get('n') == 'final_source':
